@@ -1,0 +1,39 @@
+//go:build verif
+
+package y
+
+import "github.com/dgraph-io/ristretto/v2/z"
+
+// Verification hooks for WaterMark (build tag verif only). They only talk to the production
+// process goroutine through the production mark channel.
+
+// VerifBarrier returns once every mark sent before the call has been completely handled by
+// the process goroutine: it sends a waiter mark for index 0, which process releases at once
+// (doneUntil >= 0 always holds); marks are handled one at a time in channel order.
+func (w *WaterMark) VerifBarrier() {
+	ch := make(chan struct{})
+	w.markCh <- mark{index: 0, waiter: ch}
+	<-ch
+}
+
+// VerifWaitRaw sends the waiter mark that WaitForMark sends after its fast path and returns
+// the waiter channel, so that a controller can observe (without a goroutine) whether process
+// has closed it.
+func (w *WaterMark) VerifWaitRaw(index uint64) <-chan struct{} {
+	ch := make(chan struct{})
+	w.markCh <- mark{index: index, waiter: ch}
+	return ch
+}
+
+// VerifQueueLen is the number of marks buffered in the channel.
+func (w *WaterMark) VerifQueueLen() int { return len(w.markCh) }
+
+// VerifNewWaterMark builds an initialised WaterMark exactly as badger's oracle does
+// (Init with a z.Closer) and returns it together with the function that stops its
+// process goroutine (closer.SignalAndWait).
+func VerifNewWaterMark(name string) (*WaterMark, func()) {
+	w := &WaterMark{Name: name}
+	c := z.NewCloser(1)
+	w.Init(c)
+	return w, c.SignalAndWait
+}
